@@ -268,6 +268,10 @@ def run(prop, tier, family="close"):
                                     "expected_outcome": l["fin"], "observed": routs[i], "why": why})
         cov["configs"].append({"cfg": cfg, "distinct": res.distinct, "generated": res.generated, "programs": state["n"], "mismatching": nbad})
         log("[%s] %s: %d distinct, %d programs run, %d mismatching" % (prop, cfg, res.distinct, state["n"], nbad))
+    if family == "error":
+        # round 2: error values caught and raised again, with explicit position prefixes (spec/ErrPos.tla)
+        import errpos
+        errpos.check(rep, drv, tier)
     cov["exhaustive"] = True
     cov["distinct_nontrivial_rule"] = "nontrivial = paths whose expected trace contains at least two handler calls"
     rep.assumptions += ["an error propagating out of a coroutine body closes its pending variables when the coroutine dies (golua's reading)"]
